@@ -86,6 +86,19 @@ def unit_compression():
     mom = ((ps - p0) * (q0sq - 2 * Pd + qssq) - (r0 * (q0sq - Pd) ** 2 - rs * (Pd - qssq) ** 2)).subs(Pd, Rr)
     O.append(_fin(core.prove_zero('C19/compression/momentum', mom, hy2, goal_text='p + rho (w.n)^2 is conserved across the oblique shock (given mass)'), 'momentum'))
     O.append(_fin(core.prove_valid('C19/compression/density_rises', hy2, rs > r0, goal_text='rho_s > rho0 for ps > p0'), 'mass'))
+    # translation validation against the real methods
+    from vc import propkit
+    items = []; exp = []
+    MODN = KEY.split(':')[0]
+    for fn, cases in (('compression_states', ((1.9, 1.3, 0.7, 2.6, 4.0, 1.4), (1.2, 1.0, 1.0, 3.0, -7.0, 1.67))), ('expansion_states', ((0.6, 1.3, 0.7, 2.6, 4.0, 1.4), (0.2, 1.0, 1.0, 3.0, -7.0, 1.67)))):
+        pth = _run(fn, [ps, STATE], [g > 1, M0 > 1])
+        for (ps_, p0_, r0_, M_, th_, g_) in cases:
+            pt = {ps: sp.Rational(str(ps_)), p0: sp.Rational(str(p0_)), r0: sp.Rational(str(r0_)), M0: sp.Rational(str(M_)), th: sp.Rational(str(th_)), g: sp.Rational(str(g_))}
+            ex = propkit.expected_from_paths(pth, pt)
+            if ex is None: continue
+            items.append({'module': MODN, 'cls': 'SetupRiemannProblem', 'ctor': None, 'name': fn, 'args': [ps_, [p0_, r0_, M_, th_, g_]]}); exp.append(ex)
+    n_, mm = propkit.tv_functions(items, exp, rtol=1e-9)
+    propkit.tv_report(res, 2, n_, mm)
     return res
 
 
